@@ -20,7 +20,9 @@ RULE = ("ints: 0, +-(10^k-2..10^k+2) for k=0..18, int64 extremes, every permutat
         "written and parsed through a delimited buffer; every function also on fresh views (reordered / masked / sliced / stepped / "
         "reversed selections of a larger array, ragged array or table, also chained) and on every integer dtype; int_to_str, empty "
         "batches, join/split (several separators), bool / List[bool] / Optional[int] / Optional[float] columns, float matrices "
-        "with row names, missing floats, and texts that are not numbers (lone sign, lone dot, two dots) which must be reported. Non-trivial = |n| within 2 "
+        "with row names, missing floats, array arguments in every memory layout (C / Fortran / transposed / strided / "
+        "negative-stride / column-sliced views of the same values; 2-d matrices of several non-square shapes and 1-d columns), "
+        "and texts that are not numbers (lone sign, lone dot, two dots) which must be reported. Non-trivial = |n| within 2 "
         "of a power of ten, an int64 extreme, a sign, or a batch with >= 2 widths (ints); >= 2 rows or an exponent or >= 16 "
         "digits (floats)")
 EXHAUSTIVE = {"quick": False, "thorough": False}
@@ -336,6 +338,23 @@ def cases(tier, rng):
             yield {"op": "column", "ints": [_rand_int(rng) for _ in range(n)], "unsigned": rng.random() < 0.5,
                    "floats": [f2h(_finite(_rand_double(rng))) for _ in range(n)],
                    "lists": [[_rand_int(rng) for _ in range(rng.choice([1, 2, 4]))] for _ in range(n)], "view": view()}
+    # ---- the memory layout of array arguments must not matter: C / Fortran / transposed / strided / negative-stride /
+    #      column-sliced views holding the same values
+    shapes = [(2, 3), (3, 2), (1, 4), (4, 1), (2, 2), (3, 5), (5, 3)]
+    for lay in LAYOUTS_2D:
+        for (n, k) in shapes if big else rng.sample(shapes, 4):
+            yield {"op": "matrix", "rows": [[rng.choice(S) if rng.random() < 0.2 else _rand_int(rng) for _ in range(k)] for _ in range(n)],
+                   "layout": lay}
+    yield {"op": "matrix", "rows": [[1, -20, 300], [-4000, 50000, -600000]], "layout": "T"}
+    for lay in LAYOUTS_1D:
+        for _ in range(20 if big else 4):
+            n = rng.choice([1, 2, 3, 6])
+            yield {"op": "fmt", "ns": [rng.choice(S) if rng.random() < 0.3 else _rand_int(rng) for _ in range(n)], "layout": lay}
+            yield {"op": "froundtrip", "xs": [f2h(rng.choice([0.0, -0.0, 2.5]) if rng.random() < 0.3 else _finite(_rand_double(rng))) for _ in range(n)],
+                   "layout": lay}
+            yield {"op": "column", "ints": [_rand_int(rng) for _ in range(n)], "unsigned": rng.random() < 0.5,
+                   "floats": [f2h(_finite(_rand_double(rng))) for _ in range(n)],
+                   "lists": [[_rand_int(rng) for _ in range(rng.choice([1, 2, 4]))] for _ in range(n)], "layout": lay}
     # ---- every integer dtype formats correctly (extremes of the narrower signed / unsigned types)
     for dt, lo, hi in [("int8", -2 ** 7, 2 ** 7 - 1), ("int16", -2 ** 15, 2 ** 15 - 1), ("int32", -2 ** 31, 2 ** 31 - 1),
                        ("int64", I64MIN, I64MAX), ("uint8", 0, 2 ** 8 - 1), ("uint16", 0, 2 ** 16 - 1), ("uint32", 0, 2 ** 32 - 1),
@@ -477,7 +496,8 @@ def _column_impl(c):
         for sel in sels:
             data = data[sel]
     else:
-        data = Row(np.array(_column_ints(c), dtype=np.int64), np.array(floats), RaggedArray(c["lists"]))
+        lay = c.get("layout", "C")
+        data = Row(_layout1d(_column_ints(c), lay), _layout1d(floats, lay, np.float64), RaggedArray(c["lists"]))
     raw = B.from_data(data)
     text = bytes(np.asarray(raw.raw(), dtype=np.uint8)).decode("ascii")
     buf = B.from_raw_buffer(np.frombuffer(text.encode("ascii"), dtype=np.uint8).copy())
@@ -584,6 +604,64 @@ def _column_ints_impl(c):
     return [int(v) for v in buf.get_data().a]
 
 
+LAYOUTS_2D = ["C", "F", "T", "strided", "neg", "colslice", "Tstrided"]
+LAYOUTS_1D = ["C", "col", "fcol", "step", "neg", "row_of_F"]
+
+
+def _layout2d(rows, kind, dtype=np.int64):
+    """an array equal to np.array(rows) whose MEMORY LAYOUT is `kind`: C-contiguous, Fortran-ordered, a transposed view,
+    a strided / negative-stride / column-sliced view of a larger array, a strided view of a transposed array"""
+    a = np.array(rows, dtype=dtype)
+    n, k = a.shape
+    if kind == "C":
+        out = a
+    elif kind == "F":
+        out = np.asfortranarray(a)
+    elif kind == "T":
+        out = np.ascontiguousarray(a.T).T
+    elif kind == "strided":
+        big = np.full((2 * n, 2 * k), 7, dtype=dtype)
+        big[::2, ::2] = a
+        out = big[::2, ::2]
+    elif kind == "neg":
+        out = np.ascontiguousarray(a[::-1, ::-1])[::-1, ::-1]
+    elif kind == "colslice":
+        big = np.full((n, k + 2), 7, dtype=dtype)
+        big[:, 1:-1] = a
+        out = big[:, 1:-1]
+    elif kind == "Tstrided":
+        big = np.full((2 * k, n), 7, dtype=dtype)
+        big[::2, :] = a.T
+        out = big[::2, :].T
+    else:
+        raise ValueError(kind)
+    assert out.shape == a.shape and (out == a).all()
+    return out
+
+
+def _layout1d(values, kind, dtype=np.int64):
+    """a 1-d array equal to np.array(values) laid out as `kind` (a column of a C matrix, a column of an F matrix, every
+    second element, a reversed view, a row of an F matrix)"""
+    a = np.array(values, dtype=dtype)
+    n = a.size
+    if kind == "C" or n == 0:
+        return a
+    if kind == "col":
+        big = np.full((n, 3), 7, dtype=dtype); big[:, 1] = a; out = big[:, 1]
+    elif kind == "fcol":
+        big = np.asfortranarray(np.full((n, 3), 7, dtype=dtype)); big[:, 1] = a; out = big[:, 1]
+    elif kind == "step":
+        big = np.full(2 * n, 7, dtype=dtype); big[::2] = a; out = big[::2]
+    elif kind == "neg":
+        out = np.ascontiguousarray(a[::-1])[::-1]
+    elif kind == "row_of_F":
+        big = np.asfortranarray(np.full((3, n), 7, dtype=dtype)); big[1, :] = a; out = big[1, :]
+    else:
+        raise ValueError(kind)
+    assert (out == a).all() or a.dtype.kind == "f"
+    return out
+
+
 VIEW_KINDS = ["order", "mask", "tail", "head", "step", "rev", "mask+order", "order+tail"]
 
 
@@ -663,7 +741,7 @@ def impl(c):
         if op == "fmt":
             dt = np.dtype(c.get("dtype", "int64"))
             return _rows(st.ints_to_strings(_viewed(c["ns"], c.get("view"), _junk_int if dt == np.int64 else (lambda r: 1),
-                                                    lambda rows: np.array(rows, dtype=dt))))
+                                                    lambda rows: _layout1d(rows, c.get("layout", "C"), dt))))
         if op == "parse":
             from bionumpy.encoded_array import as_encoded_array
             if c.get("view"):
@@ -715,7 +793,8 @@ def impl(c):
         if op == "matrix":
             from bionumpy.io.matrix_dump import matrix_to_csv, parse_matrix
             k = len(c["rows"][0])
-            m = _viewed(c["rows"], c.get("view"), lambda r: [_junk_int(r) for _ in range(k)], lambda rows: np.array(rows, dtype=np.int64))
+            m = _viewed(c["rows"], c.get("view"), lambda r: [_junk_int(r) for _ in range(k)],
+                        lambda rows: _layout2d(rows, c.get("layout", "C")))
             text = matrix_to_csv(m, header=["c%d" % i for i in range(m.shape[1])]).to_string()
             back = parse_matrix(text, field_type=int, rowname_type=None, sep=",")
             return {"text": text, "back": [[int(v) for v in r] for r in back.data]}
@@ -725,7 +804,7 @@ def impl(c):
                 return [f2h(v) for v in st.str_to_float(_viewed(c["rows"], c["view"], _junk_ftext, as_encoded_array))]
             return [f2h(v) for v in st.str_to_float(c["rows"])]
         if op == "froundtrip":
-            xs = np.array([float.fromhex(h) for h in c["xs"]])
+            xs = _layout1d([float.fromhex(h) for h in c["xs"]], c.get("layout", "C"), np.float64)
             texts = st.float_to_strings(xs)
             back = st.str_to_float(texts)
             alone = [_rows(st.float_to_strings(xs[i:i + 1]))[0] for i in range(len(xs))]
